@@ -261,7 +261,7 @@ func zzC17Step() {
 	// invariant: free hint still only skips full header bytes, and lies in a header or at the end
 	f := vConcrete(bks.freeIdx)
 	vAssert(f >= 0 && f <= segs*segSize, "free hint out of range")
-	vAssert(f == segs*segSize || f%segSize < bs || (f%segSize == bs), "free hint outside a header")
+	vAssert(f == segs*segSize || f%segSize < bs, "free hint points outside the headers (a later ArrangeBlock would treat user data as bitmap)")
 	for s := 0; s < segs; s++ {
 		for p := 0; p < bs; p++ {
 			if s*segSize+p < f {
